@@ -274,3 +274,143 @@ Theorem C10_example_non_sentences :
    /\ forall a, ~ Sentence [TSym 6; TNum 1; TSym 1; TNum 4; TSlash] a).
 Proof. exact GrammarStrings.ex_non_sentences. Qed.
 Print Assumptions C10_example_non_sentences.
+
+(* ---- the ANTLR-generated recogniser of the implementation ----
+   tucan/parser/tucanParser.py is translated statement by statement into gen/Antlr.v (harness/gen_antlr.py) and
+   given meaning by Model/AntlrExec.v.  The theorems below tie it to the reference parser and to the grammar for
+   EVERY input; the generated tables enter only through the computed side conditions of Proofs/AntlrProofs.v
+   (antlr_translated_ok, antlr_rules_shape, antlr_rules_all_expected, antlr_alt2_ok, antlr_token_types_ok,
+   antlr_fuel_ok). *)
+Require AntlrItem AntlrExec Antlr AntlrExpected AntlrProofs.
+Import AntlrExec.
+
+(* side conditions, restated so that their assumptions are printed with the property *)
+Theorem C10_antlr_translated : Antlr.antlr_translated = true.
+Proof. exact AntlrProofs.antlr_translated_ok. Qed.
+Print Assumptions C10_antlr_translated.
+
+Theorem C10_antlr_rules_shape :
+  map (fun p => lookup_rule Antlr.antlr_rules (fst p)) AntlrProofs.antlr_expected =
+  map (fun p => Some (snd p)) AntlrProofs.antlr_expected.
+Proof. exact AntlrProofs.antlr_rules_shape. Qed.
+Print Assumptions C10_antlr_rules_shape.
+
+Theorem C10_antlr_rules_all_expected :
+  forallb (fun p => existsb (String.eqb (fst p)) (map fst AntlrProofs.antlr_expected)) Antlr.antlr_rules = true
+  /\ length Antlr.antlr_rules = 136%nat.
+Proof. exact AntlrProofs.antlr_rules_all_expected. Qed.
+Print Assumptions C10_antlr_rules_all_expected.
+
+(* the lexer lemma and the totality of the token-type bridge *)
+Theorem C10_antlr_lex_tokens_ok : forall s ts, lex_text s = Some ts -> AntlrProofs.tokens_ok ts.
+Proof. exact AntlrProofs.lex_text_tokens_ok. Qed.
+Print Assumptions C10_antlr_lex_tokens_ok.
+
+Theorem C10_antlr_types_total : forall ts, AntlrProofs.tokens_ok ts -> exists tys, antlr_types ts = Some tys.
+Proof. exact AntlrProofs.antlr_types_total. Qed.
+Print Assumptions C10_antlr_types_total.
+
+Theorem C10_antlr_types_lex_total : forall s ts, lex_text s = Some ts -> exists tys, antlr_types ts = Some tys.
+Proof. exact AntlrProofs.antlr_types_lex_total. Qed.
+Print Assumptions C10_antlr_types_lex_total.
+
+(* MAIN: the generated recogniser accepts exactly the token lists the reference parser accepts *)
+Theorem C10_antlr_accepts_iff_parse : forall ts tys,
+  AntlrProofs.tokens_ok ts -> antlr_types ts = Some tys ->
+  (antlr_accepts_types tys = true <-> parse_tokens ts <> None).
+Proof. exact AntlrProofs.antlr_accepts_iff_parse. Qed.
+Print Assumptions C10_antlr_accepts_iff_parse.
+
+Theorem C10_antlr_accepts_iff_parse_strong : forall ts tys,
+  antlr_types ts = Some tys ->
+  (antlr_accepts_types tys = true <-> parse_tokens ts <> None).
+Proof. exact AntlrProofs.antlr_accepts_iff_parse_strong. Qed.
+Print Assumptions C10_antlr_accepts_iff_parse_strong.
+
+Theorem C10_antlr_accepts_types_spec : forall ts tys, antlr_types ts = Some tys ->
+  antlr_accepts_types tys = match parse_tokens ts with Some _ => true | None => false end.
+Proof. exact AntlrProofs.antlr_accepts_types_spec. Qed.
+Print Assumptions C10_antlr_accepts_types_spec.
+
+(* on strings: the three outcomes *)
+Theorem C10_antlr_recognise_accept_iff : forall s,
+  antlr_recognise s = AntlrAccept <-> exists ts a, lex_text s = Some ts /\ parse_tokens ts = Some a.
+Proof. exact AntlrProofs.antlr_recognise_accept_iff. Qed.
+Print Assumptions C10_antlr_recognise_accept_iff.
+
+Theorem C10_antlr_recognise_lex_error_iff : forall s,
+  antlr_recognise s = AntlrLexError <-> lex_text s = None.
+Proof. exact AntlrProofs.antlr_recognise_lex_error_iff. Qed.
+Print Assumptions C10_antlr_recognise_lex_error_iff.
+
+Theorem C10_antlr_recognise_syntax_error_iff : forall s,
+  antlr_recognise s = AntlrSyntaxError <-> exists ts, lex_text s = Some ts /\ parse_tokens ts = None.
+Proof. exact AntlrProofs.antlr_recognise_syntax_error_iff. Qed.
+Print Assumptions C10_antlr_recognise_syntax_error_iff.
+
+(* the grammar *)
+Theorem C10_antlr_recognise_iff_sentence : forall s,
+  antlr_recognise s = AntlrAccept <-> exists ts a, lex_text s = Some ts /\ Sentence ts a.
+Proof. exact AntlrProofs.antlr_recognise_iff_sentence. Qed.
+Print Assumptions C10_antlr_recognise_iff_sentence.
+
+Theorem C10_antlr_recognise_iff_sentence_string : forall s,
+  antlr_recognise s = AntlrAccept <-> exists ts a, s = print_tokens ts /\ Sentence ts a.
+Proof. exact AntlrProofs.antlr_recognise_iff_sentence_string. Qed.
+Print Assumptions C10_antlr_recognise_iff_sentence_string.
+
+Theorem C10_antlr_recognise_syntax_error_iff_no_sentence : forall s,
+  antlr_recognise s = AntlrSyntaxError <-> exists ts, lex_text s = Some ts /\ forall a, ~ Sentence ts a.
+Proof. exact AntlrProofs.antlr_recognise_syntax_error_iff_no_sentence. Qed.
+Print Assumptions C10_antlr_recognise_syntax_error_iff_no_sentence.
+
+(* against the reference reader, which adds the listener's checks *)
+Theorem C10_antlr_ref_parse_accepts : forall s g, ref_parse s = inr g -> antlr_recognise s = AntlrAccept.
+Proof. exact AntlrProofs.ref_parse_accepts_antlr_accepts. Qed.
+Print Assumptions C10_antlr_ref_parse_accepts.
+
+Theorem C10_antlr_rejects_ref_parse_rejects : forall s, antlr_recognise s <> AntlrAccept ->
+  ref_parse s = inl ELex \/ ref_parse s = inl ESyntax.
+Proof. exact AntlrProofs.antlr_rejects_ref_parse_rejects. Qed.
+Print Assumptions C10_antlr_rejects_ref_parse_rejects.
+
+Theorem C10_antlr_lex_error_iff_ref_parse : forall s,
+  antlr_recognise s = AntlrLexError <-> ref_parse s = inl ELex.
+Proof. exact AntlrProofs.antlr_lex_error_iff_ref_parse. Qed.
+Print Assumptions C10_antlr_lex_error_iff_ref_parse.
+
+Theorem C10_antlr_syntax_error_iff_ref_parse : forall s,
+  antlr_recognise s = AntlrSyntaxError <-> ref_parse s = inl ESyntax.
+Proof. exact AntlrProofs.antlr_syntax_error_iff_ref_parse. Qed.
+Print Assumptions C10_antlr_syntax_error_iff_ref_parse.
+
+Theorem C10_antlr_accept_iff_ref_parse : forall s,
+  antlr_recognise s = AntlrAccept <->
+  (exists g, ref_parse s = inr g) \/
+  (exists e, ref_parse s = inl e /\ (e = ESelfLoop \/ e = EBadIndex \/ e = EDupAttr)).
+Proof. exact AntlrProofs.antlr_accept_iff_ref_parse. Qed.
+Print Assumptions C10_antlr_accept_iff_ref_parse.
+
+(* non-vacuity: accepted, rejected by the listener only, syntax errors, lexical errors *)
+Theorem C10_antlr_examples :
+  antlr_recognise (t "C2H6O/(1-7)(2-7)(3-7)(4-8)(5-8)(6-9)(7-8)(8-9)") = AntlrAccept /\
+  antlr_recognise (t "CH4/(1-5)(2-5)(3-5)(4-5)/(5:mass=13,rad=2)") = AntlrAccept /\
+  antlr_recognise (t "/") = AntlrAccept /\
+  antlr_recognise (t "C2//") = AntlrAccept /\
+  antlr_recognise (t "CH4/(1-1)") = AntlrAccept /\
+  antlr_recognise (t "HC/") = AntlrSyntaxError /\
+  antlr_recognise (t "C1/") = AntlrSyntaxError /\
+  antlr_recognise (t "CHeH/") = AntlrSyntaxError /\
+  antlr_recognise (t "C2/(1-2") = AntlrSyntaxError /\
+  antlr_recognise (t "") = AntlrSyntaxError /\
+  antlr_recognise (t "Xx") = AntlrLexError /\
+  antlr_recognise (t "C02/") = AntlrLexError.
+Proof.
+  exact (conj (proj1 AntlrProofs.ex_antlr_ethanol) (conj (proj1 AntlrProofs.ex_antlr_attrs)
+        (conj (proj1 AntlrProofs.ex_antlr_empty_molecule) (conj (proj1 AntlrProofs.ex_antlr_empty_attrs)
+        (conj (proj1 AntlrProofs.ex_antlr_self_loop) (conj (proj1 AntlrProofs.ex_antlr_not_hill)
+        (conj (proj1 AntlrProofs.ex_antlr_count_one) (conj (proj1 AntlrProofs.ex_antlr_wrong_order)
+        (conj (proj1 AntlrProofs.ex_antlr_open_tuple) (conj (proj1 AntlrProofs.ex_antlr_empty_string)
+        (conj (proj1 AntlrProofs.ex_antlr_unknown_element) (proj1 AntlrProofs.ex_antlr_leading_zero)))))))))))).
+Qed.
+Print Assumptions C10_antlr_examples.
